@@ -915,4 +915,39 @@ example : accC 0 1 (Msg.init 0 [{ maxRtx := 1 }]) gevs = 1 ∧
     txC 0 1 (Msg.run (Msg.init 0 [{ maxRtx := 1 }]) (gevs.take 7)).out = 2 ∧
     txC 0 1 (Msg.run (Msg.init 0 [{ maxRtx := 1 }]) gevs).out = 2 := by decide
 
+open Coap.Sim Coap.Sched in
+/-- **m_due_fires** (`due_fires` on M, full — the schedule is met, not just respected): after EVERY run over the C06
+alphabet (NSTART-delayed messages included), when `coap_io_prepare_io` has run no pending message of any session is
+due: each one whose deadline had come has been retransmitted (and re-armed strictly later) or concluded with its NACK
+— the due loop has fuel for all of them, including the delayed messages a give-up lets in.  With
+`m_pending_on_schedule` / `m_schedule_all`: in a punctual run the `k`-th retransmission happens, and at
+`t0 + (2^k − 1)·T`; and by `wait_le_every_deadline` the wait then returned is positive and never beyond the next
+deadline. -/
+theorem m_due_fires (now0 : Nat) (sess : List Msg.Sess) (evs : List Msg.Ev)
+    (hs : ∀ se ∈ sess, SessOk se) (hin : RunG (Msg.init now0 sess) evs) :
+    let l := Msg.run (Msg.init now0 sess) evs
+    ∀ e ∈ abs (Msg.prepareCore l).1.q, (Msg.prepareCore l).1.now < e.deadline := by
+  intro l e he
+  have hi := run_finv (pu := False) (P := fun _ _ _ => True) (gpar_of sess hs) evs _
+    (finv_init False _ now0 sess hs) hin (fun h => h.elim) (fun _ _ _ _ => trivial)
+  have hnd := prepareCore_nothingDue (gpar_of sess hs) _ hi
+  rw [nothingDue_iff] at hnd
+  generalize (Msg.prepareCore l).1 = l' at *
+  rcases l' with ⟨now, ⟨base, nodes⟩, ss, out⟩
+  rcases nodes with _ | ⟨h, rest⟩
+  · simp [abs, absFrom] at he
+  · have h1 := hnd h rest rfl
+    simp only [abs, absFrom, List.mem_cons] at he
+    simp only [] at h1 ⊢
+    rcases he with rfl | he
+    · exact h1
+    · have := absFrom_ge _ _ e he; omega
+
+open Coap.Sim Coap.Sched in
+/-- non-vacuity of `m_due_fires` on the gated witness: at 6000 message 1 is due (give-up) and message 2 is let in;
+afterwards the only pending deadline is 9000 and the wait is 3000 -/
+example : let l := Msg.run (Msg.init 0 [{ maxRtx := 1 }]) (gevs.take 6)
+    (abs l.q).map (·.deadline) = [6000] ∧ l.now = 6000 ∧
+    (abs (Msg.prepareCore l).1.q).map (·.deadline) = [9000] ∧ (Msg.prepareCore l).2 = 3000 := by decide
+
 end Coap.C06
